@@ -55,10 +55,10 @@ def drive_all(w, specs, mode="gossip"):
     return traces, sums
 
 
-def judge(w, pid, tvs, known):
+def judge(w, pid, tvs, known, also=()):
     violations, known_hits, drift = [], [], []
     for r in tvs:
-        mine = [v for v in r["viol"] if v.get("p") == pid]
+        mine = [v for v in r["viol"] if v.get("p") == pid or v.get("p") in also]
         for v in mine:
             k = vlib.match_known(pid, v, known)
             if k:
@@ -677,7 +677,117 @@ def plan_C19(w):
                     assumptions=["beyond n = 100000 nothing is claimed by this check"])
 
 
+# ------------------------------------------------------------------ C11 / C16 (persist mode)
+
+def drive_par(w, specs, mode, par=4, timeout=900):
+    import concurrent.futures as cf
+    traces, sums = [], []
+    with cf.ThreadPoolExecutor(max_workers=par) as ex:
+        futs = [(name, ex.submit(w.drive, mode, name, args, timeout)) for name, args in specs]
+        for name, f in futs:
+            tr, sm = f.result()
+            traces.append(tr)
+            sums.append(sm)
+            log("  driver %-12s traces=%d lines=%d events=%d blocks=%d errors=%d %s" % (
+                name, sm["traces"], sm["lines"], sm["events"], sm["blocks"], sm["errors"],
+                {k: v for k, v in sm.get("extra", {}).items() if k in ("crash_points", "restarts", "store_reads_checked", "op_sequences")}))
+    return traces, sums
+
+
+def store_mc(w):
+    r = w.model_check("store", "MC_store.cfg", module="StoreMC.tla", workers=4, timeout=600)
+    if not r.get("complete"):
+        raise Infra("StoreMC did not complete: %s" % r.get("raw_tail"))
+    log("  mc store     MC_store.cfg distinct=%s generated=%s (cache + database, crash, bootstrap replay)" % (r.get("distinct"), r.get("generated")))
+    m = w.model_check("store_mut", "MC_store_mut.cfg", module="StoreMC.tla", workers=4, timeout=600)
+    if m.get("violated") != "ReadLastWritten":
+        raise Infra("StoreMC mutant (no write-through during bootstrap) was not rejected: %s" % m.get("raw_tail"))
+    w.mc.pop()  # the mutant is a sensitivity control, not evidence of the design
+    w.notes.append("spec mutant MC_store_mut.cfg (cache-only writes during bootstrap, the store before commit e188526) is rejected by TLC: ReadLastWritten")
+
+
+def persist_kinds(w, q):
+    if q:
+        return [("psA", dict(traces=3, n=0, steps=200, cache=60)), ("psB", dict(traces=3, n=0, steps=220, cache=90)),
+                ("psC", dict(traces=2, n=3, steps=240, cache=150))]
+    return [("ps%d" % i, dict(traces=6, n=0, steps=260 + 20 * i, cache=[40, 60, 90, 150, 250, 30][i % 6])) for i in range(8)] + \
+           [("psN4", dict(traces=4, n=4, steps=320, cache=200)), ("psN5", dict(traces=3, n=5, steps=300, cache=300))]
+
+
+def c11_corrupt(d):
+    if d.get("a") == "Bootstrap" and len(d["o"].get("blocks", [])) >= 2:
+        d["o"]["blocks"][1]["dig"] = "00" + d["o"]["blocks"][1]["dig"][2:]
+        return True
+    return False
+
+
+def c16_corrupt(d):
+    if d.get("a") == "StR" and d["x"].get("phase") == "reopen":
+        for r in d["o"]["rows"]:
+            if r["key"].startswith("blk:"):
+                r["got"] = "0000" + r["got"][4:]
+                return True
+    return False
+
+
+def persist_family(w, pid, corrupt, what, also=(), extra_modes=()):
+    q = Q(w)
+    known = vlib.load_known()
+    store_mc(w)
+    run_mc(w, [("hg1", "MC_hg1.cfg", 4, 300)])
+    traces, sums = drive_par(w, gossip_specs(w, persist_kinds(w, q)), "persist", par=4 if q else 6)
+    for mode, kinds in extra_modes:
+        t2, s2 = drive_par(w, gossip_specs(w, kinds), mode, par=4)
+        traces, sums = traces + t2, sums + s2
+    tvs = w.validate_many(traces, par=6 if q else 8)
+    violations, known_hits, drift = judge(w, pid, tvs, known, also=also)
+    st = None
+    if not violations:
+        st = selftest(w, pid, first_segment(traces[0], os.path.join(w.dir, "seg.ndjson")), corrupt, what)
+    tot = {}
+    for s in sums:
+        for k, v in s.get("extra", {}).items():
+            if isinstance(v, int):
+                tot[k] = tot.get(k, 0) + v
+            elif isinstance(v, dict):
+                for k2, v2 in v.items():
+                    tot[k + "." + k2] = tot.get(k + "." + k2, 0) + v2
+    tot["boots_validated"] = sum(r.get("stats", {}).get("boots", 0) for r in w.tv)
+    tot["store_rows_written"] = sum(r.get("stats", {}).get("stw", 0) for r in w.tv)
+    tot["store_reads_compared_by_tlc"] = sum(r.get("stats", {}).get("str", 0) for r in w.tv)
+    if tot.get("crash_points", 0) < 3 or tot.get("restarts", 0) < 6 or tot["store_reads_compared_by_tlc"] < 500:
+        raise Infra("vacuous run: %s" % tot)
+    return sums, violations, known_hits, drift, st, tot
+
+
+def plan_C11(w):
+    q = Q(w)
+    dynk = [("dynRs%d" % i, dict(traces=2 if q else 4, n=0, steps=300 if q else 420, arg="restart", store="badger", cache=400)) for i in range(1 if q else 4)]
+    sums, violations, known_hits, drift, st, tot = persist_family(
+        w, "C11", c11_corrupt, "a block re-delivered by a bootstrap reported with another body digest", also=("C01", "C02", "C03", "C04"),
+        extra_modes=[("dyn", dynk)])
+    extra = {"selftest": st, "totals": tot,
+             "scenarios": "real cores over real Badger stores; kill at a chosen database write (any of the next 25 writes of the stepping node, or the next block / frame / round / event write): the database directory is copied as it is on disk at that instant and the step is abandoned; restart = new store object on the image, new core, reset application, Bootstrap, SetHeadAndSeq; clean restarts (Close, reopen); every node restarted at the end; gossip goes on after every restart.  Checked at every restart: blocks re-delivered = blocks delivered before (body, state hash, receipts, events), every event whose insertion the specification had completed is known, nothing else is, head and seq restored at or above anything any peer holds, no second event at a used height ever created, agreement and consecutiveness with the rest of the network afterwards, and the whole state after bootstrap equals the specification's replay (Conf_Boot_*)"}
+    return conclude(w, "C11", sums, violations, known_hits, drift, extra=extra,
+                    assumptions=["a kill is emulated by copying the database directory at the start of a dbSet* call (what the page cache holds = what SIGKILL leaves; no power loss) and abandoning the step by a panic out of that call",
+                                 "persist-mode runs have a static validator set and crash inside steps; dyn-mode runs (real Nodes, joins and leaves accepted or refused) restart nodes between two steps: clean shutdown or copy of the database directory without closing it"])
+
+
+def plan_C16(w):
+    q = Q(w)
+    stk = [("stor%d" % i, dict(traces=3 if q else 9, steps=140 if q else 220)) for i in range(1 if q else 4)]
+    sums, violations, known_hits, drift, st, tot = persist_family(
+        w, "C16", c16_corrupt, "a block read back after reopen reported with another digest", extra_modes=[("store", stk)])
+    extra = {"selftest": st, "totals": tot,
+             "scenarios": "every completed store write of real gossip runs is recorded (key, digest of the value written) and folded into the Store.tla map by TLC; reads through the public Store methods (cache, then database) and straight from Badger are compared with that map: events (full persisted form incl. coordinates), blocks with signatures, frames, rounds, peer-sets, roots; topological and per-participant listings (from -1 and from a random index, and single indexes) compared with the order of first writes; live with caches of 30..300 entries against histories of 200+ events, after clean reopen, on crash images, after bootstrap.  store mode: the complete write stream of a real run (deep copies of every value at write time) replayed into Badger stores with caches of 1, 2, 3, 5, 10, 50 entries, cut at arbitrary points, reads interleaved, final read-back, close, reopen, read-back; one variant in three ends with a fast-sync Reset from a recorded frame (non-empty roots) followed by a peer-set change"}
+    return conclude(w, "C16", sums, violations, known_hits, drift, extra=extra,
+                    assumptions=["stores reset by fast-sync are not covered by the listing checks (the property excludes them)",
+                                 "after a bootstrap the cache holds what the replay recomputed: the public path is compared for keys written by the running incarnation, the database path for all keys"])
+
+
 PLANS = {
+    "C11": plan_C11,
+    "C16": plan_C16,
     "C08": plan_C08,
     "C17": plan_C17,
     "C12": plan_C12,
